@@ -49,6 +49,20 @@ CHECKS = {
              'every position and three element orders. Duplicate references are two identical copies in every pair of forms and addressings. The prescribed exception class is required and the control document must parse.',
         note='Documents are written from templates in verif/props/c06.py (no pydbml involved). Copies of a duplicated reference carry no comments.',
         design='DESIGN.md §3 C06'),
+    'C07': dict(
+        level='fault_enumeration', technique='every fault kind at every site of the token stream of harness-written seed documents (faults invalid by construction), parsed by the real parser',
+        text='For five seed documents (two models, three styles) every token boundary receives each stray token, every closer and closing quote is deleted, every closer / opener doubled, every column loses its type, every settings list '
+             'receives an unknown word / key:value at every position (and is emptied / given a trailing comma), every index type, reference operator, action and colour is replaced by each invalid value, and the document is cut at every boundary '
+             'that leaves a construct open. Every mutated document must raise a parse error (or a library / column-less error); a returned Database or any other exception class is a violation.',
+        note='Seeds contain no comments and no quote characters inside strings, so the faults cannot be swallowed. The token structure comes from verif/writer.py, not from pydbml.',
+        design='DESIGN.md §3 C07'),
+    'C08': dict(
+        level='exploration', technique='exhaustive token soups (all sequences up to length 3), every single-token mutation of seed documents, every short raw string at every site of a template, named shapes; outcome classification under a watchdog; total rendering of accepted inputs',
+        text='Every sequence of up to three tokens over the DBML token alphabet, every delete / duplicate / swap / replace-by-each-token mutation at every token of the seed documents, every string up to length 2 (quick) / 3 (thorough) over 18 punctuation-heavy '
+             'characters inserted unescaped at 44 sites (names, types, notes, comments, defaults, expressions, properties, colours, top level) and 50 named shapes are parsed; the outcome must be a Database, a parse error, a library error or SyntaxError, within 20 s; '
+             'for every accepted input .dbml and .sql of the database and of every element must evaluate.',
+        note='Bounded alphabets and lengths: the clause "any input text whatsoever" is decided for these spaces only. Parenthesis nesting <= 6.',
+        design='DESIGN.md §3 C08'),
     'C09': dict(
         level='model_checking', technique='explicit-state BFS over operation histories on real Database/Table objects, reference model in lock-step, dedup by implementation-state hash',
         text='Three colliding universes (tables with twins / name, alias and alias-equals-key clashes / renames + references; enums, groups, sticky notes, projects, unsupported type; one table with '
